@@ -1,8 +1,104 @@
-/- L5 (placeholder until Difflib lands): prettyDiff emptiness only. -/
+/-
+L5: snaps/diff.go on top of internal/difflib (GoSnaps.Difflib): `splitNewlines`,
+`isSingleline`, `getUnifiedDiff`, `intPadding`, `buildDiffReport`, `prettyDiff`.
+The report text is modelled exactly for NO_COLOR (rows are "- ", "+ ", "  " prefixed lines).
+With colours on, single-line pairs go through diffmatchpatch (`singlelineDiff`), which is a
+parameter: only what go-snaps does with its verdict is modelled (`prettyDiffColour`).
+-/
 import GoSnaps.Bytes
+import GoSnaps.Difflib
+import GoSnaps.Generated.Consts
 namespace GoSnaps
+open Difflib
 
-def prettyDiff (expected received : Text) (_name : Text) (_line : Nat) : Text :=
-  if expected = received then [] else ofString "<DIFF>"
+/-- `splitNewlines`: `strings.SplitAfter(s, "\n")` with "\n" appended to the last piece, i.e.
+every `strings.Split` segment followed by a newline -/
+def splitNewlines (s : Text) : List Text := (lines s).map (· ++ [nl])
+
+/-- `isSingleline` -/
+def isSingleline (s : Text) : Bool :=
+  match indexOf s [nl] with
+  | none => true
+  | some i => i = s.length - 1
+
+def sliceL (l : List Text) (i1 i2 : Nat) : List Text := (l.drop i1).take (i2 - i1)
+
+def rowEqual (l : Text) : Text := ofString "  " ++ (if l = [nl] then Generated.go_newLineSymbol ++ [nl] else l)
+def rowDelete (l : Text) : Text := ofString "- " ++ l
+def rowInsert (l : Text) : Text := ofString "+ " ++ l
+
+/-- `printRange` + `colors.FprintRange` (NO_COLOR) -/
+def rangeRow (g : List OpCode) : Text :=
+  match g.head?, g.getLast? with
+  | some first, some last =>
+    ofString "@@ -" ++ ofString (formatRangeUnified first.i1 last.i2) ++ ofString " +" ++
+      ofString (formatRangeUnified first.j1 last.j2) ++ ofString " @@" ++ [nl, nl]
+  | _, _ => []
+
+structure DiffAcc where
+  text : Text := []
+  inserted : Nat := 0
+  deleted : Nat := 0
+
+/-- rows printed for one opcode (NO_COLOR: a Replace always falls back to both line lists) -/
+def opRows (aL bL : List Text) (c : OpCode) (acc : DiffAcc) : DiffAcc :=
+  if c.tag = opEqual then
+    { acc with text := acc.text ++ ((sliceL aL c.i1 c.i2).map rowEqual).flatten }
+  else
+    let dels := if c.tag = opDelete ∨ c.tag = opReplace then sliceL aL c.i1 c.i2 else []
+    let inss := if c.tag = opInsert ∨ c.tag = opReplace then sliceL bL c.j1 c.j2 else []
+    { text := acc.text ++ (dels.map rowDelete).flatten ++ (inss.map rowInsert).flatten,
+      inserted := acc.inserted + inss.length,
+      deleted := acc.deleted + dels.length }
+
+/-- `getUnifiedDiff` (NO_COLOR) -/
+def getUnifiedDiff (a b : Text) : DiffAcc :=
+  let aL := splitNewlines a
+  let bL := splitNewlines b
+  let groups := getGroupedOpCodes aL bL Generated.diffContext
+  groups.foldl (fun acc g =>
+    let acc := if aL.length > 10 ∨ bL.length > 10 then { acc with text := acc.text ++ rangeRow g } else acc
+    g.foldl (fun acc c => opRows aL bL c acc) acc) {}
+
+def digitsOf (n : Nat) : Nat := (natToText n).length
+
+def spaces (n : Nat) : Text := List.replicate n 32
+
+/-- `intPadding`: (iPadding, dPadding) -/
+def intPadding (inserted deleted : Nat) : Text × Text :=
+  let i := digitsOf inserted
+  let d := digitsOf deleted
+  if i = d then ([], [])
+  else if i > d then ([], spaces (i - d))
+  else (spaces (d - i), [])
+
+/-- `buildDiffReport` (NO_COLOR) -/
+def buildDiffReport (inserted deleted : Nat) (diff name : Text) (line : Nat) : Text :=
+  if diff = [] then [] else
+  let (iPad, dPad) := intPadding inserted deleted
+  [nl] ++ rowDelete (ofString "Snapshot " ++ dPad ++ ofString "- " ++ natToText deleted ++ [nl]) ++
+    rowInsert (ofString "Received " ++ iPad ++ ofString "+ " ++ natToText inserted ++ [nl]) ++ [nl] ++
+    diff ++ [nl] ++
+    (if name ≠ [] then ofString "at " ++ name ++ ofString ":" ++ natToText line ++ [nl] else [])
+
+/-- `prettyDiff` with NO_COLOR set -/
+def prettyDiff (expected received name : Text) (line : Nat) : Text :=
+  if expected = received then [] else
+  let d := getUnifiedDiff expected received
+  buildDiffReport d.inserted d.deleted d.text name line
+
+/-- `shouldPrintHighlights` -/
+def shouldPrintHighlights (colour : Bool) (a b : Text) : Bool :=
+  colour && a ≠ [] && b ≠ [] && isSingleline a && isSingleline b
+
+/-- Is the report of `prettyDiff` non-empty?  With colours on and a single-line pair the
+verdict belongs to diffmatchpatch: `dmpSingleEqual e r` says that
+`DiffCleanupSemantic(DiffMain(e, r))` is one Equal chunk, in which case `singlelineDiff`
+returns "" and so does `prettyDiff` (snaps/diff.go:150-153). -/
+def prettyDiffNonEmpty (colour : Bool) (dmpSingleEqual : Text → Text → Bool)
+    (expected received : Text) : Bool :=
+  if expected = received then false
+  else if shouldPrintHighlights colour expected received then !(dmpSingleEqual expected received)
+  else (getUnifiedDiff expected received).text ≠ []
 
 end GoSnaps
